@@ -246,7 +246,7 @@ def advanceTo (target : Nat) : Nat → St → List Out → St × List Out
     | none => ({ s with now := target }, acc)
     | some (t, r) =>
       if t ≤ target then
-        let (s', o) := fire { s with now := t } t r
+        let (s', o) := fire { s with now := max s.now t } t r   -- (queue entries are never in the past, so this is t)
         advanceTo target fuel s' (acc ++ o)
       else ({ s with now := target }, acc)
 
